@@ -4,6 +4,7 @@ package main
 // from dominating tests of v.Type() against constants (if / switch arms / boolean aliases).
 
 import (
+	"go/constant"
 	"go/token"
 	"go/types"
 
@@ -34,44 +35,68 @@ func (c *Ctx) typeCallsOn(v ssa.Value) []ssa.Value {
 // (known=false when no dominating test restricts it).
 func (c *Ctx) tagsAt(v ssa.Value, b *ssa.BasicBlock) (map[int64]bool, bool) {
 	var result map[int64]bool
-	for _, t := range c.typeCallsOn(v) {
-		for _, ref := range *t.Referrers() {
-			bin, ok := ref.(*ssa.BinOp)
-			if !ok || (bin.Op != token.EQL && bin.Op != token.NEQ) {
-				continue
+	for _, cc := range controlling(b) {
+		k, op, ok := c.tagTest(cc.Cond, v)
+		if !ok {
+			continue
+		}
+		if (op == token.EQL) == (cc.Edge == 0) {
+			if result == nil {
+				result = map[int64]bool{}
 			}
-			var k int64
-			var isK bool
-			if bin.X == t {
-				k, isK = constInt(bin.Y)
-			} else {
-				k, isK = constInt(bin.X)
-			}
-			if !isK {
-				continue
-			}
-			for _, r2 := range *bin.Referrers() {
-				ifi, ok := r2.(*ssa.If)
-				if !ok {
-					continue
-				}
-				edge := 0
-				if bin.Op == token.NEQ {
-					edge = 1
-				}
-				if onEdge(ifi.Block(), edge, b) {
-					if result == nil {
-						result = map[int64]bool{}
-					}
-					result[k] = true
-				}
-			}
+			result[k] = true
 		}
 	}
 	if result == nil {
 		return nil, false
 	}
 	return result, true
+}
+
+// tagTest: cond is `v.Type() ==/!= K` (the tag may flow through a phi whose other edges are the zero tag).
+func (c *Ctx) tagTest(cond ssa.Value, v ssa.Value) (int64, token.Token, bool) {
+	bin, ok := cond.(*ssa.BinOp)
+	if !ok || (bin.Op != token.EQL && bin.Op != token.NEQ) {
+		return 0, 0, false
+	}
+	tv, kv := bin.X, bin.Y
+	k, isK := constInt(kv)
+	if !isK {
+		tv, kv = bin.Y, bin.X
+		k, isK = constInt(kv)
+	}
+	if !isK {
+		return 0, 0, false
+	}
+	if isTypeCallOn(tv, v) {
+		return k, bin.Op, true
+	}
+	if phi, ok := tv.(*ssa.Phi); ok {
+		any := false
+		for _, e := range phi.Edges {
+			if isTypeCallOn(e, v) {
+				any = true
+				continue
+			}
+			if z, ok := constInt(e); ok && z != k {
+				continue // another constant tag (e.g. the zero value) on paths where v was not evaluated
+			}
+			return 0, 0, false
+		}
+		if any && bin.Op == token.EQL {
+			return k, bin.Op, true
+		}
+	}
+	return 0, 0, false
+}
+
+func isTypeCallOn(t ssa.Value, v ssa.Value) bool {
+	call, ok := t.(*ssa.Call)
+	if !ok {
+		return false
+	}
+	cc := call.Common()
+	return cc.IsInvoke() && cc.Method.Name() == "Type" && len(cc.Args) == 0 && (cc.Value == v || sameValue(cc.Value, v))
 }
 
 // tagConst returns the value of object.<name>.
@@ -92,35 +117,13 @@ func constInt64(k *types.Const) (int64, bool) {
 // tagExcludedAt: at block b, value v is known NOT to have tag k (false edge of v.Type()==k or
 // true edge of v.Type()!=k).
 func (c *Ctx) tagExcludedAt(v ssa.Value, k int64, b *ssa.BasicBlock) bool {
-	for _, t := range c.typeCallsOn(v) {
-		for _, ref := range *t.Referrers() {
-			bin, ok := ref.(*ssa.BinOp)
-			if !ok || (bin.Op != token.EQL && bin.Op != token.NEQ) {
-				continue
-			}
-			var kk int64
-			var isK bool
-			if bin.X == t {
-				kk, isK = constInt(bin.Y)
-			} else {
-				kk, isK = constInt(bin.X)
-			}
-			if !isK || kk != k {
-				continue
-			}
-			for _, r2 := range *bin.Referrers() {
-				ifi, ok := r2.(*ssa.If)
-				if !ok {
-					continue
-				}
-				edge := 1
-				if bin.Op == token.NEQ {
-					edge = 0
-				}
-				if onEdge(ifi.Block(), edge, b) {
-					return true
-				}
-			}
+	for _, cc := range controlling(b) {
+		kk, op, ok := c.tagTest(cc.Cond, v)
+		if !ok || kk != k {
+			continue
+		}
+		if (op == token.EQL) == (cc.Edge == 1) {
+			return true
 		}
 	}
 	// positive knowledge of other tags also excludes k
@@ -130,24 +133,70 @@ func (c *Ctx) tagExcludedAt(v ssa.Value, k int64, b *ssa.BasicBlock) bool {
 	return false
 }
 
-// controlling lists the (If block, edge) pairs whose edge block b is confined to.
+// controlling lists the branch conditions (value, edge) that are known to hold in block b:
+// b is confined to that edge of the If. Short-circuit values materialised as phis
+// (`a && b` used as a switch case) are expanded into their operands.
 type ctrlCond struct {
 	If   *ssa.If
-	Edge int // 0 true, 1 false
+	Cond ssa.Value
+	Edge int // 0: Cond is true, 1: Cond is false
 }
 
 func controlling(b *ssa.BasicBlock) []ctrlCond {
+	return controllingDepth(b, 0)
+}
+
+func controllingDepth(b *ssa.BasicBlock, depth int) []ctrlCond {
 	var res []ctrlCond
+	if depth > 6 {
+		return nil
+	}
 	for _, ib := range b.Parent().Blocks {
 		ifi, ok := ib.Instrs[len(ib.Instrs)-1].(*ssa.If)
 		if !ok {
 			continue
 		}
 		for e := 0; e < 2; e++ {
-			if onEdge(ib, e, b) {
-				res = append(res, ctrlCond{ifi, e})
+			if !onEdge(ib, e, b) {
+				continue
 			}
+			res = append(res, expandCond(ifi, ifi.Cond, e, depth)...)
 		}
+	}
+	return res
+}
+
+func expandCond(ifi *ssa.If, cond ssa.Value, edge int, depth int) []ctrlCond {
+	res := []ctrlCond{{If: ifi, Cond: cond, Edge: edge}}
+	phi, ok := cond.(*ssa.Phi)
+	if !ok || depth > 6 {
+		return res
+	}
+	// && : every constant edge is false; knowing the phi is true means it came from a
+	// non-constant edge: that operand is true, and everything controlling its block holds.
+	// || : every constant edge is true; knowing the phi is false, symmetrically.
+	var nonConst []int
+	allFalse, allTrue := true, true
+	for i, e := range phi.Edges {
+		k, isK := e.(*ssa.Const)
+		if !isK || k.Value == nil || k.Value.Kind() != constant.Bool {
+			nonConst = append(nonConst, i)
+			continue
+		}
+		if constant.BoolVal(k.Value) {
+			allFalse = false
+		} else {
+			allTrue = false
+		}
+	}
+	if len(nonConst) != 1 || len(nonConst) == len(phi.Edges) {
+		return res
+	}
+	i := nonConst[0]
+	if (edge == 0 && allFalse) || (edge == 1 && allTrue) {
+		res = append(res, expandCond(ifi, phi.Edges[i], edge, depth+1)...)
+		res = append(res, controllingDepth(phi.Block().Preds[i], depth+1)...)
+		// the block computing the operand is itself entered through the first operand's edge
 	}
 	return res
 }
